@@ -54,9 +54,13 @@ def seqs_from_prints(prints):
 
 
 def seq_line(i, calls, seed):
+    body = "%d %s" % (len(calls), " ".join(" ".join(str(v) for v in c) for c in calls))
+    if i % 5 == 4:
+        # every fifth sequence runs on a multistream / projection decoder (layout, Fs, entry point in turn)
+        j = i // 5 + seed
+        return "%d %d %d %s" % (FS[j % 5], 100 + (j // 5) % 12, (j // 60 + j) % 3, body)
     combo = (i + seed) % 30            # every (Fs, channels, entry point) combination in turn
-    return "%d %d %d %d %s" % (FS[combo % 5], 1 + (combo // 5) % 2, combo // 10, len(calls),
-                               " ".join(" ".join(str(v) for v in c) for c in calls))
+    return "%d %d %d %s" % (FS[combo % 5], 1 + (combo // 5) % 2, combo // 10, body)
 
 
 # ---------------------------------------------------------------------------
